@@ -153,3 +153,65 @@ def r9_7(prog, chk):
     chk.extra["R9.7_file_reading_functions"] = len(readers)
     chk.floor("R9.7", n, 30)
     chk.floor("R9.7-judged", nk, 5)
+
+
+def r9_8(prog, chk):
+    """R9.8 - counted appends.  In the readers, a counter incremented right after a value was stored and then compared with
+    an announced count to leave the loop (`n++; if (n >= count) break;`) bounds the number of stored values by `count` only
+    if the comparison is `>=` (or `==`): with `>` one value more than announced is stored (the table no longer has
+    rows x columns values).  `n > count - 1` is the same test and is accepted."""
+    n = 0
+    for f in sorted(prog.funcs, key=lambda x: (x.file, x.line)):
+        if f.body is None:
+            continue
+        for blk in f.walk():
+            if blk["k"] != "Block":
+                continue
+            ch = blk.get("c") or []
+            for i, s in enumerate(ch):
+                if s is None or s["k"] != "If" or len(s["c"]) < 2 or s["c"][1] is None:
+                    continue
+                then = s["c"][1]
+                leaves = then["k"] in ("Break", "Return") or (then["k"] == "Block" and len(then.get("c") or []) == 1 and then["c"][0] is not None and then["c"][0]["k"] == "Break")
+                if not leaves:
+                    continue
+                # counters incremented by the statements just before (same block, up to the previous control statement)
+                incs = set()
+                j = i - 1
+                while j >= 0 and ch[j] is not None and ch[j]["k"] in ("UnOp", "If", "Assign"):
+                    if ch[j]["k"] == "UnOp" and (ch[j].get("op") or "").replace("post", "") == "++":
+                        x = _strip(ch[j]["c"][0])
+                        if x is not None and x["k"] == "DeclRefExpr":
+                            incs.add(x["d"])
+                    j -= 1
+                if not incs:
+                    continue
+                # is something stored before the increment in this block?
+                stores = any(y is not None and any(z["k"] == "MCall" and (z.get("callee") or "").split("::")[-1] == "push_back" for z in walk(y))
+                             for y in ch[:i])
+                if not stores:
+                    continue
+                # conjuncts of the condition
+                conj, work = [], [s["c"][0]]
+                while work:
+                    c = _strip(work.pop())
+                    if c is not None and c["k"] == "BinOp" and c.get("op") == "&&":
+                        work += c["c"]
+                    elif c is not None:
+                        conj.append(c)
+                for c in conj:
+                    if c["k"] != "BinOp" or c.get("op") not in (">", ">=", "==", "<", "<="):
+                        continue
+                    l, r = _strip(c["c"][0]), _strip(c["c"][1])
+                    if l is None or l["k"] != "DeclRefExpr" or l.get("d") not in incs or r is None or r["k"] == "Int":
+                        continue
+                    n += 1
+                    chk.analysed(f)
+                    minus1 = r["k"] == "BinOp" and r.get("op") == "-" and _strip(r["c"][1]) is not None and _strip(r["c"][1])["k"] == "Int" and _strip(r["c"][1])["v"] == 1
+                    ok = c["op"] in (">=", "==") or (c["op"] == ">" and minus1)
+                    chk.ob("R9.8", "%s: the count `%s` of stored values leaves the loop as soon as it reaches `%s`" % (f.name, l["n"], show(r)[:25]),
+                           f.loc(c), ok,
+                           detail=None if ok else "`%s` lets one value more than the announced count be stored: the table read from the file no longer "
+                           "has rows x columns values (inconsistent object / out-of-range access when it is used)" % show(c)[:40],
+                           key="R9.8|%s|%s vs %s" % (f.name, l["n"], show(r)[:20]))
+    chk.floor("R9.8", n, 2)
